@@ -21,7 +21,7 @@ BOUNDS = "all paths of get_next_actions / get_next_actions_for_file_info / compa
 ASSUMPTIONS = ["<DataHash as Ord>::cmp is a total order and <Ordering as PartialEq>::eq(cmp(a,b), Equal) agrees with it (derived impls)",
                "input shards are sorted by hash without duplicates (C09 side: serialize_from writes BTreeMap order)"]
 OUTSIDE = ["the application of the actions in set_operation (record copying through the readers, lookup tables, totals): native replay only",
-           "consolidate_shards_in_directory (grouping, write-then-delete: ordering part under C19)", "retrievability of the output through its lookup tables (C09 obligations on the search)"]
+           "consolidate_shards_in_directory's grouping arithmetic and the content of the merged shard (its deletion guard and write-before-delete order are decided here by Mode B)", "retrievability of the output through its lookup tables (C09 obligations on the search)"]
 
 ACT = {"CopyToOut": 0, "SkipOver": 1, "Nothing": 2, "Merge": 3}
 
@@ -280,6 +280,34 @@ def build_file_actions(fns):
     return [sc]
 
 
+def build_consolidate(fns):
+    """consolidate_shards_in_directory: an input shard is deleted only behind the guard that protects returned shards,
+    and the merged output is in the guard set before any deletion (Mode B)"""
+    from mirsym import modeb
+    g = modeb.CFG(mir.find_fn(fns, r"^session_directory::consolidate_shards_in_directory$|^consolidate_shards_in_directory$"))
+    rm = g.blocks_calling(r"fs::remove_file")
+    ins = g.blocks_calling(r"HashSet::<(\w+::)*DataHash>::insert$")
+    con = g.blocks_calling(r"HashSet::<(\w+::)*DataHash>::contains")
+    wr = g.blocks_calling(r"MDBShardFile::write_out_from_reader")
+    push = [b for b in g.blocks_calling(r"Vec::<(std::sync::)?Arc<(\w+::)*MDBShardFile>>::push$")]
+    un = g.blocks_calling(r"shard_set_union")
+    if not (rm and ins and con and wr and push and un):
+        raise LookupError("consolidation shape not recognised (%s)" % [rm, ins, con, wr, push, un])
+    sc = smt.Script("c10_consolidation_guard")
+    modeb.no_path_query(g, sc, "the merged shard's hash is in the guard set before any input shard is deleted", modeb.after(g, wr), rm, ins)
+    modeb.no_path_query(g, sc, "a shard is deleted only after the guard set was consulted for it", [g.entry], rm, con)
+    hit = modeb.bool_branch_edges(g, r"HashSet::<(\w+::)*DataHash>::contains", True)
+    if not hit:
+        sc.query("the guard's positive answer skips the deletion", ["true"])
+    else:
+        nxt = [b for b in g.nodes if g.callee(b) and re.search(r"as Iterator>::next$", g.callee(b))]
+        modeb.no_path_query(g, sc, "a shard found in the guard set is not deleted (the loop moves on to the next candidate)", [t for _, t in hit], rm, nxt)
+    modeb.no_path_query(g, sc, "every shard handed back was entered into the guard set first", [g.entry], push, ins)
+    modeb.no_path_query(g, sc, "inputs are deleted only after the merged shard was written", modeb.after(g, un), rm, wr)
+    modeb.no_path_query(g, sc, "witness: a deletion is reachable", [g.entry], rm, [], expect="sat", kind="witness")
+    return [sc]
+
+
 replay = native_test("c10_set_ops_native", "C10 violated", "native replay passes: union and difference of all small shard pairs contain exactly the expected records")
 _F = "mdb_shard::set_operations::"
 SMT = [
@@ -288,5 +316,8 @@ SMT = [
     Q("c10_file_merge_step_table", "same-file union picks the richer record (or merges), everything else is the hash table", "mdb_shard", build_file_actions,
       functions=[_F + "get_next_actions_for_file_info", "mdb_shard::file_structs::FileDataSequenceHeader::compare_flag_superset"], bounds="all paths; all 32-bit flag pairs",
       solvers=("z3", "cvc5-bv"), replay=replay),
+    Q("c10_consolidation_guard", "consolidation deletes an input only behind the guard protecting returned shards (Mode B)", "mdb_shard", build_consolidate,
+      functions=["mdb_shard::session_directory::consolidate_shards_in_directory"], bounds="all CFG paths", solvers=("z3", "cvc5-bv"),
+      replay=native_test("c10_consolidate_native", "C10 violated", "native replay passes: consolidation keeps every record, returned shards exist under their content hash")),
 ]
 KANI = []
